@@ -220,7 +220,8 @@ def main():
             dist["%s:%s" % (name, status)] += 1
             cl = classify(r)
             if cl:
-                dist["oracle:" + (" ".join(r[2].split(" ")[2:3]))] += 1
+                for q in (quirks_of(r[2]) or [" ".join(r[2].split(" ")[2:3])]):
+                    dist["oracle:" + q] += 1
             excused = cl == "known" and set(quirks_of(r[2]) or []) & MODEL_EXCUSED
             if m != r[1] and not excused:
                 ndis += 1
